@@ -836,6 +836,11 @@ func checkC11(c *core.Ctx) {
 	ruleLogKinds(c)
 	ruleImportArms(c)
 	ruleLoggedAccountMetadataIsApplied(c)
+	// the copy gets the chart's default metadata only if the import replays each log under the
+	// schema version it was written with (C29's rule, an obligation here too)
+	ruleDefaultMetadata(c)
+	// … and the moves of an imported transaction carry the dates of the original, not "now"
+	ruleUnwindingLoop(c)
 	ruleImportHashVerified(c)
 	ruleSequenceResync(c)
 	ruleDecoratorCompleteness(c, "DECO/all", nil)
